@@ -291,6 +291,24 @@ def check_clauses(ctx, rng, n, vi, led, conn, entries, options, txns, d, e, use_
     if [(j[0], j[1], j[4], j[5]) for j in jrows] != [(r[4], r[5], r[2], r[3]) for r in rows]:
         ctx.violation('c13.journal_route_differs', f'JOURNAL FROM {clauses}: its postings (date, flag, account, position) differ from the SELECT route ({len(jrows)} vs {len(rows)} rows)', case)
         return False
+    # the register's running balance is the prefix sum of its positions -- also over the postings the summarization itself
+    # inserts (opening balances, transfers to equity: no metadata, and equal ones in a row when two accounts hold the same)
+    from beancount.core import inventory as _inventory
+    for jtext in (None, 'Equity|Capital'):
+        if jtext is not None:
+            try:
+                jrows = conn.execute(f'JOURNAL "{jtext}" FROM {clauses}').fetchall()
+            except Exception as exc:  # noqa: BLE001
+                ctx.violation('c13.journal_rejected', f'JOURNAL "{jtext}" FROM {clauses}: {exc!r}', case)
+                return False
+        run_ = _inventory.Inventory()
+        for jn, j in enumerate(jrows):
+            run_.add_position(j[5])
+            if j[6] != run_:
+                ctx.violation('c13.journal_running_balance', f'JOURNAL {jtext or ""} FROM {clauses}: row {jn} ({j[0]} {j[4]} {j[5]}) shows the balance {j[6]}; '
+                              f'the positions listed so far total {run_}', case)
+                return False
+        ctx.count('obs.journal_running_balances')
     from beanquery import compiler, query_execute
     out = io.StringIO()
     try:
